@@ -2001,13 +2001,20 @@ class Parallel(Logger):
         """Main function to dispatch parallel tasks."""
 
         self._reset_run_tracking()
-        self.n_tasks = len(iterable) if hasattr(iterable, "__len__") else None
-        self._start_time = time.time()
+        try:
+            self.n_tasks = len(iterable) if hasattr(iterable, "__len__") else None
+            self._start_time = time.time()
 
-        if not self._managed_backend:
-            n_jobs = self._initialize_backend()
-        else:
-            n_jobs = self._effective_n_jobs()
+            if not self._managed_backend:
+                n_jobs = self._initialize_backend()
+            else:
+                n_jobs = self._effective_n_jobs()
+        except BaseException:
+            # The call cannot start (e.g. the input's __len__ raised or the
+            # backend could not be initialized): do not leave this object in
+            # the running state for ever.
+            self._running = False
+            raise
 
         if n_jobs == 1:
             # If n_jobs==1, run the computation sequentially and return
